@@ -71,6 +71,11 @@ func generateState(internalState *dtlsstate.State) (*State, error) {
 	}
 
 	epoch := internalState.LocalEpoch()
+	if int(epoch) >= len(internalState.LocalSequenceNumber) {
+		// The epoch was switched for a flight that has not been written yet:
+		// no record has been numbered in it.
+		return nil, dtlserrors.ErrHandshakeInProgress
+	}
 	profile := internalState.SRTPProtectionProfile()
 	var peerMKI []byte
 	if profile != 0 {
